@@ -207,6 +207,8 @@ func cmdGen(args []string) {
 		genInject(r, out, *n, *per)
 	case "cpm":
 		genCPM(r, out, *n, *per)
+	case "cpmglue":
+		genCPMGlue(r, out, *n)
 	case "runirq":
 		genRunIRQ(r, out, *n)
 	case "alucube":
